@@ -564,4 +564,5 @@ PROPS['C09']['proved_part'] += '; upset_generalization: worklist invariant + cor
 PROPS['C13']['proved_part'] += '; d[o, p] / d[i] reads, __ne__, Unique.rsub against a recursive model (lemma.rsub_model)'
 PROPS['C11']['proved_part'] += '; the JSON path of tools (dump_json/load_json/_call_json/_get_fileobj: which file object, mode, encoding, closing); Pair._eq / Lattice._eq (the structural equality behind "indistinguishable")'
 PROPS['C19']['proved_part'] += '; the observables Context.objects / properties / bools (member labels of the bitset classes, rows of _intents)'
+PROPS['C20']['units'] += ['lattices._annotate', 'lattices._init', 'contexts.intension', 'contexts.extension']      # the reduced labelling the drawing shows (C10 chain)
 NOT_APPLICABLE = {}
